@@ -134,6 +134,7 @@ class Ctx:
         self.pos = 0
         self.decisions = []
         self.arity = []
+        self.alive = []
         self.pc = []
         self.pc_light = []
         self.heavy_mode = False
@@ -182,13 +183,28 @@ class Ctx:
         if not (heavy or self.heavy_mode):
             self.pc_light.append(f)
 
-    def choose(self, n, label=''):
+    def choose(self, n, label='', alive=None):
+        """a fork point with n alternatives.  The number of decisions on a path and their arities
+        must not depend on solver answers (paths are replayed in other processes, where a
+        time-limited feasibility check may answer differently), so callers always pass the full
+        arity; `alive` only steers which alternative a *new* decision takes first and which
+        siblings are worth exploring."""
         if self.pos < len(self.prefix):
             d = self.prefix[self.pos]
         else:
             d = 0
+            if alive is not None:
+                live = [i for i in range(n) if alive[i]]
+                if not live:
+                    self.decisions.append(0)
+                    self.arity.append(n)
+                    self.alive.append([False] * n)
+                    self.pos += 1
+                    raise Infeasible()
+                d = live[0]
         self.decisions.append(d)
         self.arity.append(n)
+        self.alive.append(list(alive) if alive is not None else [True] * n)
         self.pos += 1
         if label:
             self.trace.append('%s=%d' % (label, d))
@@ -210,15 +226,7 @@ class Ctx:
             return False
         can_t = self.feasible(cond)
         can_f = self.feasible(z3.Not(cond))
-        if can_t and not can_f:
-            self.assume(cond)
-            return True
-        if can_f and not can_t:
-            self.assume(z3.Not(cond))
-            return False
-        if not can_t and not can_f:
-            raise Infeasible()
-        d = self.choose(2, label)
+        d = self.choose(2, label, alive=[can_t, can_f])
         if d == 0:
             self.assume(cond)
             return True
@@ -228,23 +236,23 @@ class Ctx:
     def force(self, v, label='union'):
         """pick one alternative of a VUnion"""
         while isinstance(v, VUnion):
-            alts = [(g, a) for g, a in v.alts]
-            live = []
-            for g, a in alts:
+            alts = []
+            for g, a in v.alts:
                 g = simp(g)
                 if z3.is_false(g):
                     continue
-                if z3.is_true(g) or self.feasible(g):
-                    live.append((g, a))
-            if not live:
+                alts.append((g, a))
+            if not alts:
                 raise Infeasible()
-            if len(live) == 1:
-                self.assume(live[0][0])
-                v = live[0][1]
-            else:
-                d = self.choose(len(live), label)
-                self.assume(live[d][0])
-                v = live[d][1]
+            if len(alts) == 1 or any(z3.is_true(g) for g, a in alts):
+                g, a = next((x for x in alts if z3.is_true(x[0])), alts[0])
+                self.assume(g)
+                v = a
+                continue
+            alive = [self.feasible(g) for g, a in alts]
+            d = self.choose(len(alts), label, alive=alive)
+            self.assume(alts[d][0])
+            v = alts[d][1]
         return v
 
     # -- obligations -------------------------------------------------------
@@ -344,20 +352,11 @@ class Ctx:
             self.known_class[key] = classes[0]
             return classes[0]
         ca = self.field_array('__class__')
-        live = []
-        for c in classes:
-            g = z3.Select(ca, t) == self.engine.class_id(c)
-            if self.feasible(g):
-                live.append((g, c))
-        if not live:
-            raise Infeasible()
-        if len(live) == 1:
-            self.assume(live[0][0])
-            c = live[0][1]
-        else:
-            d = self.choose(len(live), 'class')
-            self.assume(live[d][0])
-            c = live[d][1]
+        guards = [z3.Select(ca, t) == self.engine.class_id(c) for c in classes]
+        alive = [self.feasible(g) for g in guards]
+        d = self.choose(len(classes), 'class', alive=alive)
+        self.assume(guards[d])
+        c = classes[d]
         self.known_class[key] = c
         return c
 
@@ -478,7 +477,8 @@ class Engine:
         siblings = []
         for j in range(len(prefix), len(ctx.decisions)):
             for d in range(ctx.decisions[j] + 1, ctx.arity[j]):
-                siblings.append(ctx.decisions[:j] + [d])
+                if ctx.alive[j][d]:
+                    siblings.append(ctx.decisions[:j] + [d])
         return list(ctx.obligs), problems, siblings
 
     def explore(self, run_path):
@@ -510,14 +510,19 @@ class Engine:
                     continue
                 seen_ob.add(key)
                 obligs.append(ob)
-            # backtrack
-            dec, ar = ctx.decisions, ctx.arity
+            # backtrack to the last decision that has an unexplored live alternative
+            dec, ar, al = ctx.decisions, ctx.arity, ctx.alive
             i = len(dec) - 1
-            while i >= 0 and dec[i] + 1 >= ar[i]:
+            nxt = None
+            while i >= 0:
+                cand = [d for d in range(dec[i] + 1, ar[i]) if al[i][d]]
+                if cand:
+                    nxt = cand[0]
+                    break
                 i -= 1
             if i < 0:
                 break
-            prefix = dec[:i] + [dec[i] + 1]
+            prefix = dec[:i] + [nxt]
             if self.stats['paths'] >= self.max_paths:
                 problems.append({'kind': 'engine', 'msg': 'path budget exhausted (%d)' % self.max_paths})
                 break
